@@ -49,7 +49,11 @@ def c01_jobs(tier, prop=1):
         J.append(mjob('m-n3-k3-events-head', prop, N=3, K=3, HEAD=1, OPS=EVENTS | 1, timeout=T))
         J.append(mjob('m-n3-l2-k3-all', prop, N=3, L=2, K=3, MANUAL=1, HEAD=1, PAYLOAD=3, OPS=ALLOPS, timeout=T, **dict(HIST, **SER)))
         J.append(mjob('m-n5-ind-head-manual', prop, N=5, K=1, INDUCTIVE=1, HEAD=1, MANUAL=1, OPS=ALLOPS, timeout=T))
+        J.append(mjob('m-n3-k3-relocate', prop, N=3, K=3, OPS=CORE | 256, timeout=T))
+        J.append(mjob('m-n3-l2-k3-relocate-manual-head-payload', prop, N=3, L=2, K=3, MANUAL=1, HEAD=1, PAYLOAD=5, OPS=CORE | 128 | 256, timeout=T, **HIST))
     else:
+        J.append(mjob('m-n3-k4-relocate', prop, N=3, K=4, OPS=CORE | 256, timeout=T))
+        J.append(mjob('m-n3-k3-relocate-manual-head-payload', prop, N=3, K=3, MANUAL=1, HEAD=1, PAYLOAD=5, OPS=CORE | 128 | 256, timeout=T, **HIST))
         for n in (1, 2, 3, 4, 5):
             J.append(mjob('m-n%d-k4' % n, prop, N=n, K=4, OPS=CORE, timeout=T))
         for l in (1, 2, 6):
@@ -102,7 +106,11 @@ def c05_jobs(tier):
         J.append(mjob('m-n3-manual', 5, N=3, K=2, MANUAL=1, OPS=PH | 128, timeout=T))
         J.append(mjob('m-n3-l2-head-plans-k1', 5, N=3, L=2, K=1, HEAD=1, OPS=3, timeout=T, FFSM2_ENABLE_PLANS=''))
         J.append(mjob('m-n2-l2-plans-evt1-k1', 5, N=2, L=2, K=1, EVT=1, OPS=3, timeout=T, FFSM2_ENABLE_PLANS=''))
+        J.append(mjob('m-n3-relocate', 5, N=3, K=3, OPS=PH | 256, timeout=T))
+        J.append(mjob('m-n3-head-evt1-relocate', 5, N=3, K=2, HEAD=1, EVT=1, OPS=PH | 256, timeout=T))
     else:
+        J.append(mjob('m-n3-relocate-k4', 5, N=3, K=4, OPS=PH | 256, timeout=T))
+        J.append(mjob('m-n4-head-evt1-relocate-k3', 5, N=4, K=3, HEAD=1, EVT=1, OPS=PH | 256, timeout=T))
         for evt in (0, 1, 2):
             for head in (0, 1):
                 J.append(mjob('m-n3-evt%d-head%d-k3' % (evt, head), 5, N=3, K=3, EVT=evt, HEAD=head, OPS=PH, timeout=T))
@@ -143,6 +151,7 @@ def c07_jobs(tier):
         J.append(mjob('m-n3-l%d-pay%d' % (L, k), 7, N=3, L=L, K=2, PAYLOAD=k, OPS=CORE, timeout=T, **HIST))
     J.append(mjob('m-n2-l2-pay5-head-manual', 7, N=2, L=2, K=2, PAYLOAD=5, HEAD=1, MANUAL=1, OPS=CORE | 128, timeout=T, **HIST))
     J.append(mjob('m-n3-pay3-ind', 7, N=3, K=1, PAYLOAD=3, INDUCTIVE=1, OPS=ALLOPS, timeout=T, **HIST))
+    J.append(mjob('m-n3-l2-pay5-relocate', 7, N=3, L=2, K=3 if tier == 'quick' else 4, PAYLOAD=5, OPS=CORE | 256, timeout=T, **HIST))
     if tier != 'quick':
         J.append(mjob('m-n3-pay5-k3-events', 7, N=3, K=3, PAYLOAD=5, OPS=EVENTS | 1 | 16, timeout=T, **HIST))
         J.append(mjob('m-n4-l2-pay9-k2', 7, N=4, L=2, K=2, PAYLOAD=9, OPS=CORE, timeout=T, **HIST))
@@ -160,7 +169,9 @@ def c11_machine_jobs(tier):
         J.append(mjob('m-n4-k4', 11, N=4, K=4, OPS=RP, timeout=T, **HIST))
         J.append(mjob('m-n5-ind', 11, N=5, K=1, INDUCTIVE=1, OPS=ALLOPS, timeout=T, **HIST))
         J.append(mjob('m-n3-l2-k2-injected', 11, N=3, L=2, K=2, INJECT=1, OPS=RP, timeout=T, **HIST))
+        J.append(mjob('m-n3-k3-relocate-payload', 11, N=3, K=3, PAYLOAD=3, OPS=RP | 256, timeout=T, **HIST))
     else:
+        J.append(mjob('m-n3-k4-relocate-payload', 11, N=3, K=4, PAYLOAD=3, OPS=RP | 256, timeout=T, **HIST))
         for n in (1, 2, 3, 4): J.append(mjob('m-n%d-k4' % n, 11, N=n, K=4, OPS=RP, timeout=T, **HIST))
         J.append(mjob('m-n3-k3-head-payload', 11, N=3, K=3, HEAD=1, PAYLOAD=5, OPS=RP, timeout=T, **HIST))
         J.append(mjob('m-n3-k4-manual', 11, N=3, K=4, MANUAL=1, OPS=RP | 128, timeout=T, **HIST))
@@ -286,7 +297,9 @@ def c16_jobs(tier):
     for mode in (1, 2):
         J.append(product_job('log-product-none-vs-m%d-k%d' % (mode, K), 'logger.cpp', dict(ROLE=1, HEAD=1, KSTEPS=K), dict(LOGMODE=0), dict(LOGMODE=mode),
                              (1650, 1651), (1600, 1699), unwind=max(K + 3, 6), timeout=T, steps=K + 2, nch=14, ntr=28))
+    J.append(Job('log-faithful-m1-h1-k%d-manual' % K, 'logger.cpp', dict(ROLE=0, LOGMODE=1, HEAD=1, KSTEPS=K, MANUAL=1), unwind=K + 3, timeout=T, prop=(1600, 1699)))
     if tier != 'quick':
+        J.append(Job('log-faithful-m2-h0-k3-manual', 'logger.cpp', dict(ROLE=0, LOGMODE=2, HEAD=0, KSTEPS=3, MANUAL=1), unwind=6, timeout=T, prop=(1600, 1699)))
         J.append(Job('log-faithful-m1-h1-k4', 'logger.cpp', dict(ROLE=0, LOGMODE=1, HEAD=1, KSTEPS=4), unwind=7, timeout=T, prop=(1600, 1699)))
         J.append(product_job('log-product-m1-vs-m2-k3', 'logger.cpp', dict(ROLE=1, HEAD=0, KSTEPS=3), dict(LOGMODE=1), dict(LOGMODE=2), (1650, 1651), (1600, 1699), unwind=6, timeout=T, steps=5, nch=14, ntr=28))
     return J
@@ -337,7 +350,7 @@ def c12_jobs(tier):
         big = n > 16
         variants = ((0, 0), (1, 0), (1, 1)) if (n <= 9 or (tier != 'quick' and n in NSET)) else ((n % 2, (n // 2) % 2),)
         for manual, head in variants:
-            J.append(sj('ser-n%d-m%d-h%d' % (n, manual, head), n, MANUAL=manual, HEAD=head, FULL=0 if big else 1))
+            J.append(sj('ser-n%d-m%d-h%d' % (n, manual, head), n, MANUAL=manual, HEAD=head, FULL=2 if big else 1))
     J.append(sj('ser-n3-m1-h1-payload', 3, MANUAL=1, HEAD=1, PAYLOAD=1))
     feats = ['FFSM2_ENABLE_PLANS', 'FFSM2_ENABLE_TRANSITION_HISTORY', 'FFSM2_ENABLE_LOG_INTERFACE']
     combos = ((1, 1, 1), (1, 0, 0), (0, 1, 0)) if tier == 'quick' else tuple((a, b, c) for a in (0, 1) for b in (0, 1) for c in (0, 1))
@@ -561,8 +574,13 @@ def c18_jobs(tier):
     for n in ((1, 2, 64) if tier == 'quick' else (1, 2, 3, 64, 128)):
         j = Job('disp-n%d' % n, 'dispatch.cpp', dict(NSTATES=n, STATE_LIST=sl(n), HEAD=n % 2, STAGES=3 if n <= 64 else 1), unwind=6, mem_gb=24, seeds=20)
         j.weight_gb = 0.5 + n * n * 8.0 / (255 * 255); ubj(j)
-        j = Job('ser-n%d' % n, 'serial.cpp', dict(NSTATES=n, STATE_LIST=sl(n), MANUAL=1, HEAD=1, FULL=1 if n <= 16 else 0), unwind=6, unwindset={'nondet_fill.0': 64}, mem_gb=24, seeds=20)
+    # serialization at the state counts where the buffer grows by a byte (1 + bitWidth(N) crosses 8 at N = 128)
+    for n in ((1, 2, 64, 127, 128) if tier == 'quick' else (1, 2, 3, 64, 127, 128, 129, 255)):
+        j = Job('ser-n%d' % n, 'serial.cpp', dict(NSTATES=n, STATE_LIST=sl(n), MANUAL=1, HEAD=1, FULL=1 if n <= 16 else 2), unwind=6, unwindset={'nondet_fill.0': 64}, mem_gb=24, seeds=20)
         j.weight_gb = 0.5 + n * n * 8.0 / (255 * 255); ubj(j)
+        if n in (2, 127, 128, 255):     # typed array indices survive only in the unoptimised IR: the buffer's own bounds, not just the enclosing object's
+            j = Job('ser-n%d' % n, 'serial.cpp', dict(NSTATES=n, STATE_LIST=sl(n), MANUAL=0, HEAD=0, FULL=2), unwind=6, unwindset={'nondet_fill.0': 64}, mem_gb=24, seeds=20)
+            j.weight_gb = 0.5 + n * n * 8.0 / (255 * 255); ubj(j, olevel='O0m')
     j = product_job('self-prefill-m0-k2', 'selfcomp.cpp', dict(ROLE=0, KSTEPS=2, MANUAL=0), {}, {}, (1700, 1701), (1800, 1899), unwind=6, steps=4, nch=12, ntr=28)
     j.unwindset['nondet_fill.0'] = 200; j.weight_gb = 4.0; ubj(j)
     if tier != 'quick':
